@@ -358,6 +358,11 @@ class GaussianMeta(FunsorMeta):
         scale_tril=None,
         covariance=None,
     ):
+        # Class-level settings live on the origin class, not on its
+        # parametrized subclasses (which snapshot the class dict when created).
+        if cls.__args__:
+            cls = cls.__origin__
+
         # Convert inputs.
         assert inputs is not None
         if isinstance(inputs, OrderedDict):
